@@ -26,6 +26,7 @@ def matrix_cases(tier):
     big = tier == "thorough"
     return st.one_of(
         mdp_specs("discounted", max_states=6 if big else 5, schemes=SCHEMES, p0_zero_entries=True),
+        mdp_specs("discounted", max_states=6 if big else 5, schemes=SCHEMES, p0_zero_entries=True, extreme=True),
         mdp_specs("negative", max_states=6 if big else 5, schemes=SCHEMES, p0_zero_entries=True),
         # absorbing states whose successors lie outside the (inferred) state list: rows left out of the arrays
         mdp_specs("discounted", min_states=3, max_states=6 if big else 5, schemes=SCHEMES, normalise=False, allow_explicit=False,
@@ -240,10 +241,10 @@ def prop_reach(case, ctx):
 
 
 PROPS = [
-    Prop("views", matrix_cases, prop_views, quick=2500, thorough=50000,
+    Prop("views", matrix_cases, prop_views, quick=2500, thorough=150000,
          doc="state/action lists, arrays and tables vs the spec, cell by cell"),
-    Prop("roundtrip", matrix_cases, prop_roundtrip, quick=600, thorough=12000,
+    Prop("roundtrip", matrix_cases, prop_roundtrip, quick=600, thorough=36000,
          doc="from_matrices / QuickTabularMDP / QuickMDP round trips incl. planning results"),
-    Prop("reach", lambda tier: reach_cases(tier), prop_reach, quick=2500, thorough=50000,
+    Prop("reach", lambda tier: reach_cases(tier), prop_reach, quick=2500, thorough=150000,
          doc="reachable_states (with max_states) and inferred state_list vs closure"),
 ]
